@@ -148,14 +148,19 @@ def replay_concrete(p, n1, B, folder, n2, Ls, verbose):
             params, losses = c.calibrate(n_req)
             ran = c.current_batch_index - before
             exp = n_req
+            tie = False
             if p is not None:
                 for j in range(1, n_req + 1):
                     m = min(Fraction(x) for x in Ls[: (before + j) * B])
+                    # a running minimum within 1e-9 (relative) of the rounding tie is outside the claim:
+                    # binary64 np.round and exact decimal rounding may legitimately differ there
+                    if abs(abs(m) * 10**p - Fraction(1, 2)) < Fraction(1, 10**9):
+                        tie = True
                     if abs(m) * 10**p <= Fraction(1, 2):
                         exp = j
                         break
-            msgs.append(f"calibrate({n_req}) from batch {before}: ran {ran}, expected {exp}")
-            if ran != exp or len(losses) != c.current_batch_index * B:
+            msgs.append(f"calibrate({n_req}) from batch {before}: ran {ran}, expected {exp}" + (" (tie region: either accepted)" if tie else ""))
+            if (ran != exp and not tie) or len(losses) != c.current_batch_index * B:
                 bad = True
             if folder:
                 from black_it.utils.json_pandas_checkpointing import load_calibrator_state
